@@ -64,7 +64,7 @@ FLOORS = {
               "n_spi_lengths": 20, "n_spi_start_phases": 50, "spi_slave_frames": 100, "i2c_bits": 2000, "i2c_start_stop_seen": 160,
               "i2c_bytes_written": 120, "i2c_bytes_read": 60, "timer_cycles_compared": 12000, "timer_zero_events": 1000,
               "timer_one_shots_timed": 80, "timer_value_latches": 200, "watchdog_cycles": 9000, "watchdog_timeouts": 250,
-              "watchdog_saturated_cycles": 3000, "waittimer_runs": 300, "timeline_sequences": 900, "pwm_periods": 600, "bone_commands": 1500, "spi_csr_transfers": 80, "spi_csr_bits": 700,
+              "watchdog_saturated_cycles": 3000, "waittimer_runs": 300, "timeline_sequences": 900, "pwm_periods": 600, "bone_commands": 1500, "spi_csr_transfers": 80, "spi_csr_bits": 700, "pwm_csr_periods": 250,
               "bone_wishbone_cycles": 2500, "bone_read_bytes": 3500, "bone_truncated_commands": 150, "bone_unknown_commands": 200},
     "thorough": {"uart_tx_frames_decoded": 4000, "uart_rx_bytes_delivered": 4000, "uart_rx_bad_stop_frames": 200, "uart_rx_zero_gap_frames": 900,
                  "uart_full_tx_frames": 500, "uart_full_rx_bytes": 500, "n_uart_tx_tuning_words": 8, "n_uart_rx_tuning_words": 8,
@@ -72,7 +72,7 @@ FLOORS = {
                  "n_spi_lengths": 30, "n_spi_start_phases": 66, "spi_slave_frames": 800, "i2c_bits": 25000, "i2c_start_stop_seen": 2000,
                  "i2c_bytes_written": 1500, "i2c_bytes_read": 800, "timer_cycles_compared": 120000, "timer_zero_events": 8000,
                  "timer_one_shots_timed": 600, "timer_value_latches": 2000, "watchdog_cycles": 80000, "watchdog_timeouts": 2000,
-                 "watchdog_saturated_cycles": 20000, "waittimer_runs": 500, "timeline_sequences": 5000, "pwm_periods": 3000, "bone_commands": 30000, "spi_csr_transfers": 1500, "spi_csr_bits": 12000,
+                 "watchdog_saturated_cycles": 20000, "waittimer_runs": 500, "timeline_sequences": 5000, "pwm_periods": 3000, "bone_commands": 30000, "spi_csr_transfers": 1500, "spi_csr_bits": 12000, "pwm_csr_periods": 1500,
                  "bone_wishbone_cycles": 50000, "bone_read_bytes": 70000, "bone_truncated_commands": 3000, "bone_unknown_commands": 4000},
 }
 SHARD_TIMEOUT = {"quick": 600, "thorough": 3000}
